@@ -139,6 +139,8 @@ int femmcli::LuaCommonCommands::luaAddArc(lua_State *L)
     double maxseg = lua_todouble(L,6);
 
     CArcSegment asegm;
+    if (doc->nodelist.empty())
+        return 0; // catch case where no nodes have been drawn yet (closestNode() returns -1)
     asegm.n0 = doc->closestNode(sx,sy);
     asegm.n1 = doc->closestNode(ex,ey);
     doc->nodelist[asegm.n1]->ToggleSelect();
